@@ -304,8 +304,13 @@ def run(chk):
     lines = run_driver(chk, drv, cases, parts=1 if chk.replay else (4 if quick else 8))
     phase("build_and_drive_real_code")
     segs = V.split_cases(lines)
+    nhang = len([ln for ln in lines if ln.get("e") == "hang"])
     if len(segs) != len(cases):
-        raise V.Inconclusive("driver recorded %d cases of %d" % (len(segs), len(cases)))
+        if not nhang:
+            raise V.Inconclusive("driver recorded %d cases of %d" % (len(segs), len(cases)))
+        # the driver gives up after a few cases that ended in a watchdog expiry; what was recorded is still judged
+        chk.inconclusive.append("driver stopped early: %d cases of %d recorded, %d ended in a watchdog expiry" % (
+            len(segs), len(cases), nhang))
     clean = []
     for s in segs:
         bad = [ln for ln in s if ln.get("e") in ("panic", "hang")]
@@ -374,6 +379,11 @@ def run(chk):
     chk.notes["gated_cases"] = sum(len(g) for g in groups.values())
     skips = [ln for s in clean for ln in s if ln.get("e") == "skip"]
     chk.notes["commands_not_applicable_on_code"] = len(skips)
+    for s in clean:
+        for ln in s:
+            if ln.get("e") == "drift" and len(chk.drift) < 40:
+                chk.drift.append({"spec": "CRDTResource.tla", "case": s[0].get("case"), "class": seg_key(s),
+                                  "text": "driver: " + str(ln.get("what"))})
 
     # 6. evidence -------------------------------------------------------------------------------
     chk.notes["generator"] = gen_stats
